@@ -556,6 +556,14 @@ func (g *HistGen) NextVer() int { return g.nextVer }
 // outside the property's quantifier).
 func (g *HistGen) Batch(t *rapid.T, maxOps int) BatchSpec {
 	var b BatchSpec
+	if rapid.IntRange(0, 13).Draw(t, "wipe") == 0 {
+		// delete every id of the pool: empties every segment at once (skipped-merge and
+		// dropped-segment paths)
+		for _, id := range g.IDPool {
+			b.Ops = append(b.Ops, Op{Kind: "delete", ID: id})
+		}
+		return b
+	}
 	n := rapid.IntRange(0, maxOps).Draw(t, "nOps")
 	if n > len(g.IDPool) {
 		n = len(g.IDPool)
